@@ -20,7 +20,7 @@ BOXES = ("mixed", "mixed", "boxed", "narrow", "narrow", "lower", "upper", "boxed
 
 def floors(tier):
     return {"runs": 500, "points_checked": 5000, "evaluations_with_component_on_bound": 1500, "fd_runs": 150, "runs_with_bounds_object_edited_in_place": 60, "runs_with_nested_run": 60, "nested_runs": 100,
-            "runs_with_low_precision_start": 80, "restart_legs": 150, "runs_with_user_step_cap": 200, "runs_on_boxes_of_magnitude_1e20_and_more": 50, "runs_with_user_functions_working_in_place_on_their_argument": 80, "__nontrivial__": 200}
+            "runs_with_low_precision_start": 80, "restart_legs": 300, "runs_with_user_step_cap": 200, "runs_on_boxes_of_magnitude_1e20_and_more": 50, "runs_with_user_functions_working_in_place_on_their_argument": 80, "__nontrivial__": 200}
 
 
 def cases(tier, seed):
@@ -40,10 +40,10 @@ def cases(tier, seed):
         if i % 7 == 5 and cfg["jac"] != "cs":
             cfg["hostile_user"] = True  # the user's functions work in place on the array they are handed (and leave garbage in it)
         spec = {"problem": ps, "cfg": cfg, "edit_bounds": bool(i % 6 == 0)}
-        if i % 4 == 2:
+        if i % 2 == 0:
             # the run is continued from its result, with a gradient scaler and a demanding curvature test on the restart leg
             spec["restart"] = {"scaler": float(np.exp(rng.uniform(np.log(1e-3), np.log(1e3)))), "extra": int(rng.integers(1, 6)),
-                               "eps_SY": float(gen.pick(rng, [2.2e-16, 1e-2, 0.3]))}
+                               "eps_SY": float(gen.pick(rng, [2.2e-16, 0.3, 0.3, 0.5]))}
         if i % 10 == 7:
             # another optimisation (same n, another box, finite differences) runs nested inside the objective
             spec["nested"] = {"problem": gen.rand_spec(rng, ("qp", "sphere", "quartic"), nmax=8, boxes=("none", "mixed", "lower", "upper", "boxed"),
